@@ -20,6 +20,8 @@ pub enum G {
     Call(String, Vec<G>),
     List(Vec<G>),
     Map(Vec<(G, G)>),
+    /// message construction `T{f: x, ...}`
+    Struct(String, Vec<(String, G)>),
 }
 
 pub const BINOPS: [&str; 14] = ["||", "&&", "<", "<=", ">=", ">", "==", "!=", "in", "+", "-", "*", "/", "%"];
@@ -172,6 +174,19 @@ impl G {
                 }
                 o.push('}');
             }
+            G::Struct(n, fs) => {
+                o.push_str(n);
+                o.push('{');
+                for (k, (f, b)) in fs.iter().enumerate() {
+                    if k > 0 {
+                        o.push_str(", ");
+                    }
+                    o.push_str(f);
+                    o.push_str(": ");
+                    b.pmin(o, 1);
+                }
+                o.push('}');
+            }
         }
         if paren {
             o.push(')');
@@ -272,6 +287,19 @@ impl G {
                 }
                 o.push('}');
             }
+            G::Struct(n, fs) => {
+                o.push_str(n);
+                o.push('{');
+                for (k, (f, b)) in fs.iter().enumerate() {
+                    if k > 0 {
+                        o.push_str(", ");
+                    }
+                    o.push_str(f);
+                    o.push_str(": ");
+                    b.pfull(o);
+                }
+                o.push('}');
+            }
         }
         if !leaf {
             o.push(')');
@@ -298,6 +326,7 @@ impl G {
             G::Method(x, _, args) => 1 + x.ops() + args.iter().map(|a| a.ops()).sum::<usize>(),
             G::Call(_, args) | G::List(args) => 1 + args.iter().map(|a| a.ops()).sum::<usize>(),
             G::Map(es) => 1 + es.iter().map(|(a, b)| a.ops() + b.ops()).sum::<usize>(),
+            G::Struct(_, fs) => 1 + fs.iter().map(|(_, b)| b.ops()).sum::<usize>(),
         }
     }
 
@@ -340,6 +369,11 @@ impl G {
                     b.number_leaves(prefix, c);
                 }
             }
+            G::Struct(_, fs) => {
+                for (_, b) in fs {
+                    b.number_leaves(prefix, c);
+                }
+            }
         }
     }
 }
@@ -362,13 +396,20 @@ pub enum Form {
     List1,
     List2,
     Map1,
+    Call2,
+    Method2,
+    List3,
+    Map2,
+    Struct1,
+    Struct2,
 }
 
 impl Form {
     pub fn arity(&self) -> usize {
         match self {
-            Form::Bin(_) | Form::Index | Form::Method1 | Form::List2 | Form::Map1 => 2,
-            Form::Cond => 3,
+            Form::Bin(_) | Form::Index | Form::Method1 | Form::List2 | Form::Map1 | Form::Call2 | Form::Struct2 => 2,
+            Form::Cond | Form::Method2 | Form::List3 => 3,
+            Form::Map2 => 4,
             Form::Call0 => 0,
             _ => 1,
         }
@@ -389,6 +430,12 @@ impl Form {
             Form::List1 => G::List(vec![*next()]),
             Form::List2 => G::List(vec![*next(), *next()]),
             Form::Map1 => G::Map(vec![(*next(), *next())]),
+            Form::Call2 => G::Call("g".into(), vec![*next(), *next()]),
+            Form::Method2 => G::Method(next(), "m".into(), vec![*next(), *next()]),
+            Form::List3 => G::List(vec![*next(), *next(), *next()]),
+            Form::Map2 => G::Map(vec![(*next(), *next()), (*next(), *next())]),
+            Form::Struct1 => G::Struct("T".into(), vec![("f".into(), *next())]),
+            Form::Struct2 => G::Struct("pkg.T".into(), vec![("f".into(), *next()), ("g".into(), *next())]),
         }
     }
 }
@@ -399,6 +446,13 @@ pub fn all_forms() -> Vec<Form> {
         Form::Cond, Form::Not, Form::Neg, Form::Select, Form::Index, Form::Method0, Form::Method1, Form::Call0, Form::Call1, Form::List1,
         Form::List2, Form::Map1,
     ]);
+    v
+}
+
+/// the complete form set plus multi-argument calls, longer literals and message construction
+pub fn ext_forms() -> Vec<Form> {
+    let mut v = all_forms();
+    v.extend_from_slice(&[Form::Call2, Form::Method2, Form::List3, Form::Map2, Form::Struct1, Form::Struct2]);
     v
 }
 
@@ -612,6 +666,7 @@ impl N {
             G::Call(f, args) => N::Call(f.clone(), None, args.iter().map(N::from_g).collect()),
             G::List(es) => N::List(es.iter().map(N::from_g).collect()),
             G::Map(es) => N::Map(es.iter().map(|(k, v)| (N::from_g(k), N::from_g(v))).collect()),
+            G::Struct(n, fs) => N::Struct(n.clone(), fs.iter().map(|(f, v)| (f.clone(), N::from_g(v))).collect()),
         }
     }
 
